@@ -414,6 +414,7 @@ func subincludeTarget(s *scope, l core.BuildLabel) *core.BuildTarget {
 		s.Error("Target :%s is not defined in this package; it has to be defined before the subinclude() call", l.Name)
 	}
 	t = s.WaitForSubincludedTarget(l, pkgLabel)
+	s.Assert(t != nil, "Failed to build subinclude target %s", l)
 	if s.pkg != nil {
 		s.pkg.RegisterSubinclude(l)
 	} else if s.subincludeLabel != nil { // If this is nil, that indicates a preloadedSubinclude
